@@ -139,12 +139,12 @@ func c18expect(b string, v string) string {
 }
 
 func init() {
-	binVersions := []string{"v0.2.0", "v1.2.3", "1.2.3", "dev-main"}
+	binVersions := []string{"v0.2.0", "v1.2.3", "1.2.3", "dev-main", "v1.2.3+build.5", "v2.1.0-rc.1", "v0.3.1+dirty", "2.0.4-rc.1+b7", "v3"}
 	Register(&Check{
 		ID:    "C18",
 		Level: "exploration",
 		Rule: "full grid of (build version B, declared version V) pairs: majors 0..3 x minors 0..3 x patches {0,7} x {release,-rc.1,+b5} on both axes, " +
-			"plus non-semver builds, absent V, malformed V, and 4 real binaries linked with -X main.version; a case is non-trivial when B is a semantic version and V is present (the gate is actually evaluated); distinct = distinct (B,V) pair",
+			"plus non-semver builds, absent V, malformed V, and 8 real binaries linked with -X main.version (v-prefixed, with prerelease and build metadata); a case is non-trivial when B is a semantic version and V is present (the gate is actually evaluated); distinct = distinct (B,V) pair",
 		Assumptions: []string{
 			"in-process cmd.NewBuildCmd(B, info) is what main.go calls after stripping a leading v from a valid v-prefixed version; the stripping itself is covered by the 4 linked binaries",
 			"versions of the short form MAJOR.MINOR (accepted by x/mod/semver, not by semver.org) are treated as unspecified and not generated",
@@ -247,7 +247,10 @@ func init() {
 				if strings.HasPrefix(bv, "v") && parseSemver(bv[1:]).ok {
 					eff = bv[1:]
 				}
-				for _, v := range []string{"0.2.0", "0.2.9-rc.1", "0.3.0", "1.2.0", "1.3.0", "1.0.5+b5", "2.0.0"} {
+				if bv == "v3" {
+					continue // short forms are unspecified
+				}
+				for _, v := range []string{"0.2.0", "0.2.9-rc.1", "0.3.0", "0.3.9", "1.2.0", "1.2.9", "1.3.0", "1.0.5+b5", "2.0.0", "2.0.9", "2.1.5", "2.2.0"} {
 					i, bv, eff, v := i, bv, eff, v
 					w.Case(fmt.Sprintf("binary/%s/V=%s", bv, v), func(c *C) {
 						dir := w.FreshDir()
